@@ -74,11 +74,14 @@ def mkBlock (env : Env) (l c : Ledger) (ts : Int) (txs : List Tx) (newAddresses 
   { prevHash := prevHashOf env c, added := unionAdded (l.reg.filter newAddresses) (c.reg.filter newAddresses),
     removed := c.reg.pending, ts := ts, txs := txs }
 
-/-- `AddBlock`: confirm the previous tip, build the block, append -/
+/-- `AddBlock`: refuse a block not dated after the current tip (fix: commit — the caller computed the timestamp
+    from a tip it read earlier), confirm the previous tip, build the block, append -/
 def addBlock (env : Env) (l : Ledger) (ts : Int) (txs : List Tx) (newAddresses : List String) : Except String Ledger :=
-  match l.confirmLast with
-  | .error e => .error e
-  | .ok c => .ok { c with blocks := c.blocks ++ [mkBlock env l c ts txs newAddresses] }
+  if !l.blocks.isEmpty && ts ≤ l.lastTs then .error "not-after-tip"
+  else
+    match l.confirmLast with
+    | .error e => .error e
+    | .ok c => .ok { c with blocks := c.blocks ++ [mkBlock env l c ts txs newAddresses] }
 
 /-- `Blocks(startingBlockHeight)` -/
 def page (pageSize : Nat) (blocks : List Block) (h : Nat) : List Block :=
